@@ -27,6 +27,7 @@ import (
 
 	"github.com/paulmach/osm"
 	"github.com/paulmach/osm/osmpbf"
+	"google.golang.org/protobuf/encoding/protowire"
 	"pgregory.net/rapid"
 
 	"verif/internal/harness"
@@ -305,6 +306,23 @@ func damage(f *pbfgen.File, j *Job) (data []byte, nbefore int, skip string) {
 			if sz < 0 {
 				return nil, 0, "empty payload"
 			}
+		}
+		if j.Arg == "field-boundary" {
+			// declared size = the payload without its last top-level field: a
+			// reader that treats raw_size as a cap would see a valid, shorter message
+			rest, lastStart := payload, -1
+			for len(rest) > 0 {
+				_, _, n := protowire.ConsumeField(rest)
+				if n < 0 {
+					break
+				}
+				lastStart = len(payload) - len(rest)
+				rest = rest[n:]
+			}
+			if lastStart <= 0 {
+				return nil, 0, "payload has fewer than two fields"
+			}
+			sz = lastStart
 		}
 		b.Varint(2, uint64(sz))
 		b.Bytes(3, zb.Bytes())
@@ -645,7 +663,7 @@ var damageClasses = []damageSpec{
 	{"header-size-too-big", "64k"}, {"header-size-too-big", "max"},
 	{"datasize-too-big", "32m"}, {"datasize-too-big", "max"},
 	{"datasize-negative", "-1"}, {"datasize-negative", "min"},
-	{"raw-size-wrong", "more"}, {"raw-size-wrong", "less"},
+	{"raw-size-wrong", "more"}, {"raw-size-wrong", "less"}, {"raw-size-wrong", "field-boundary"},
 	{"zlib-corrupt", "truncate-half"}, {"zlib-corrupt", "adler"}, {"zlib-corrupt", "flip1"}, {"zlib-corrupt", "flip3"}, {"zlib-corrupt", "flip4"}, {"zlib-corrupt", "flip6"},
 	{"blob-unknown-encoding", "empty"}, {"blob-unknown-encoding", "lzma"},
 	{"block-type-unknown", ""}, {"second-header", ""}, {"required-feature-unsupported", ""},
@@ -702,7 +720,13 @@ func buildJobs(c Case) []Job {
 	}
 	for _, pos := range positions {
 		for di, d := range damageClasses {
-			add(Job{Kind: d.Kind, Arg: d.Arg, Pos: pos, Procs: procsCycle[(di+pos+1)%len(procsCycle)]})
+			procs := procsCycle[(di+pos+1)%len(procsCycle)]
+			add(Job{Kind: d.Kind, Arg: d.Arg, Pos: pos, Procs: procs})
+			if pos > 0 && procs != 1 {
+				// a single decoder has seen all earlier blocks: stale per-decoder
+				// state (cached iterators, buffers) can only mask damage there
+				add(Job{Kind: d.Kind, Arg: d.Arg, Pos: pos, Procs: 1})
+			}
 		}
 	}
 	return jobs
